@@ -23,3 +23,123 @@ def model_check(ctx):
         else:
             ctx.mc('buffer', 'MC_Buffer', cfg + '.cfg', timeout=1800,
                    require_actions=ACTIONS + (WAITS if '_w' in cfg else []))
+
+
+# ---------------------------------------------------------------------------------------------
+# implementation conformance (code -> spec): recorded executions against Buffer.tla
+import json as _json
+import os as _os
+import re as _re
+import shutil as _shutil
+from concurrent.futures import ThreadPoolExecutor as _TPE
+
+UNIT = 500
+
+
+def _prep(sc, r):
+    if sc.get('foreign') or sc.get('stalls') or str(sc.get('form', 'direct')).startswith('default'):
+        return None
+    prog = sc.get('prog', [])
+    if any(it['op'] not in ('call', 'wait') or it.get('submit_first') for it in prog):
+        return None
+    func = sc.get('func', {})
+    if func.get('durs') or func.get('fail_cancel') or (sc['timeout'] * 1000) % UNIT or (func.get('dur', 0) * 1000) % UNIT:
+        return None
+    calls = [it for it in prog if it['op'] == 'call']
+    waits = [it for it in prog if it['op'] == 'wait']
+    if not calls or len(calls) > 5 or len(waits) > 2:
+        return None
+    # the model numbers the arguments 1..N in submission order and the waits 1..W
+    order = [e['id'] for e in r['events'] if e['e'] == 'Submit']
+    idmap = {sid: i + 1 for i, sid in enumerate(order)}
+    xmap = {}
+    wmap = {}
+    ev = []
+    for e in r['events']:
+        if e['e'] in ('Tick', 'Config', 'End', 'Quiescent', 'Shutdown', 'ShutdownDone'):
+            continue
+        if 'st' not in e or e['t'] % UNIT:
+            return None
+        d = {k: v for k, v in e.items() if k != 'n' or e['e'] in ('FuncStart', 'FuncEnd')}
+        d['t'] = e['t'] // UNIT
+        if e['e'] in ('Submit', 'Produced', 'ProducerDone'):
+            d['id'] = idmap[e['id']]
+            if e['e'] == 'Produced':
+                xmap[e['x']] = d['id']
+                d['x'] = d['id']
+        elif e['e'] == 'FuncStart':
+            d['S'] = sorted(xmap.get(x, x) for x in e['S'])
+        elif e['e'] in ('WaitCall', 'WaitRet'):
+            if e['e'] == 'WaitCall':
+                wmap[e['w']] = len(wmap) + 1
+            d['w'] = wmap.get(e['w'], 0)
+        ev.append(d)
+    cancel = {}
+    for e in ev:
+        if e['e'] == 'WaitCall':
+            cancel[e['w']] = bool(e['cancel'])
+    return {'events': ev, 'n': len(order), 'cancel': cancel,
+            'consts': {'TAU': int(sc['timeout'] * 1000) // UNIT, 'Dur': int(func.get('dur', 0) * 1000) // UNIT,
+                       'FailSet': sorted(func.get('fail', [])),
+                       'MaxTime': max([e['t'] for e in ev if e['e'] in ('Submit', 'WaitCall')] + [0])}}
+
+
+def _one(p):
+    from harness import tlc
+    c = p['consts']
+    cancel = ' @@ '.join('(%d :> %s)' % (w, 'TRUE' if v else 'FALSE') for w, v in sorted(p['cancel'].items())) or '[w \\in {} |-> TRUE]'
+    mod = ('---- MODULE MC_BufferConform ----\nEXTENDS BufferConform\nCElems == 1..%d\nCWaits == %s\nCCancel == %s\nCFail == {%s}\n====\n'
+           % (p['n'], '{' + ', '.join(str(w) for w in sorted(p['cancel'])) + '}', cancel, ', '.join(str(x) for x in c['FailSet'])))
+    cfg = ('INIT CInit\nNEXT CNext\nCONSTANTS\n Elems <- CElems\n TAU = %d\n Dur = %d\n FailSet <- CFail\n MaxTime = %d\n Waits <- CWaits\n CancelOf <- CCancel\n'
+           ' Foreign = FALSE\n ClearInputs = TRUE\nCONSTRAINT Reached\nCONSTRAINT NotYetAccepted\nCHECK_DEADLOCK FALSE\n' % (c['TAU'], c['Dur'], c['MaxTime']))
+    work = tlc.scratch('bufconf-')
+    try:
+        tf = _os.path.join(work, 'trace.json')
+        with open(tf, 'w') as f:
+            _json.dump(p['events'], f)
+        out, dt, rc = tlc.run_tlc('buffer', 'MC_BufferConform', 'MC_BufferConform.cfg', workers=1,
+                                  timeout=int(_os.environ.get('CONF_TIMEOUT', '90')), env={'TRACE_FILE': tf},
+                                  cfg_text=cfg, extra_files={'MC_BufferConform.tla': mod},
+                                  jvm=['-Dtlc2.tool.queue.IStateQueue=StateDeque'], heap='1g')
+    finally:
+        _shutil.rmtree(work, ignore_errors=True)
+    r = tlc.parse_mc(out)
+    best = 1
+    for m in _re.finditer(r'<< ?"REACHED", 1, (\d+), (\d+) ?>>', _re.sub(r'\s+', ' ', out)):
+        best = max(best, int(m.group(1)))
+    err = r['error']
+    return best, len(p['events']) + 1, err, r['distinct'], r['generated'], (out[out.find('Error:'):][:1500] if err and err != 'timeout' else '')
+
+
+def conformance(ctx, executed, limit=40):
+    todo = []
+    for sc, r, v in executed:
+        if r.get('status') != 'ok' or any(x is not None for x in v.values()):
+            continue
+        p = _prep(sc, r)
+        if p is not None and len(p['events']) <= 60:
+            todo.append(p)
+    todo.sort(key=lambda p: len(p['events']))
+    todo = todo[:limit]
+    acc = und = 0
+    drift = []
+    with _TPE(8) as ex:
+        for p, (best, n, err, ds, gen, tail) in zip(todo, ex.map(_one, todo)):
+            ctx.cov['states'] += ds
+            ctx.cov['transitions'] += gen
+            if best >= n:
+                acc += 1
+            elif err == 'timeout':
+                und += 1
+            elif err:
+                ctx.notes.append('buffer conformance: TLC error: %s' % (tail[:700],))
+                und += 1
+            else:
+                drift.append({'matched_prefix': best - 1, 'of': n - 1, 'first_unexplained': p['events'][best - 1]})
+    ctx.cov['conformance'] = {'traces_checked': len(todo), 'accepted': acc, 'drift': len(drift), 'undecided': und,
+                              'drift_samples': drift[:3],
+                              'what': 'recorded executions (plain calls + wait() on the loop thread) validated against the timed model '
+                                      'Buffer.tla with silent processing steps; projected state (queue length, all-processed flag) compared '
+                                      'at every observable event'}
+    ctx.cov['conformance_divergences'] = len(drift)
+    return len(todo), acc, drift
